@@ -13,6 +13,7 @@ import (
 	"os/exec"
 	"runtime"
 	"sync"
+	"time"
 )
 
 type JobFn func(arg json.RawMessage) (interface{}, error)
@@ -35,6 +36,7 @@ type Result struct {
 	Out     json.RawMessage
 	Err     string // job returned an error
 	Crashed bool   // worker died while running this job
+	Skipped bool   // not started: the deadline had passed
 	Stderr  string // tail of the worker's stderr if it died
 }
 
@@ -82,10 +84,11 @@ func WorkerMain() {
 }
 
 type Options struct {
-	Workers int
-	Exe     string   // default: this executable
-	Env     []string // extra environment
-	UlimitV int64    // kilobytes of virtual memory per worker, 0 = none
+	Workers  int
+	Exe      string    // default: this executable
+	Env      []string  // extra environment
+	UlimitV  int64     // kilobytes of virtual memory per worker, 0 = none
+	Deadline time.Time // jobs not started by then are skipped (zero: none)
 }
 
 type tailBuf struct {
@@ -171,6 +174,15 @@ func Map(name string, args []interface{}, o Options, cb func(i int, r *Result)) 
 				mu.Unlock()
 				if i >= len(args) {
 					break
+				}
+				if !o.Deadline.IsZero() && time.Now().After(o.Deadline) {
+					results[i] = Result{Skipped: true}
+					if cb != nil {
+						cbmu.Lock()
+						cb(i, &results[i])
+						cbmu.Unlock()
+					}
+					continue
 				}
 				if w == nil {
 					var err error
